@@ -171,6 +171,9 @@ func init() {
 		for i := range jobs {
 			jobs[i].BudgetS = b(100, 900)
 		}
+		// "a terminated user has no live session": the round that cuts an exhausted user off overlapping its last
+		// session closing and the user connecting again (the driver is shared with C16)
+		jobs = append(jobs, vx.Job{Scenario: "panel.usage", Params: vx.P("sessions", "0.1", "ops", "up0.1:300,round,close0.1,admit0.2", "upcredit", "200", "delay", "1"), Bound: b(2, 3), BudgetS: b(100, 900), Weight: 8})
 		// the panel's own periodic loop with one slow or failing round: reporting and termination go on
 		for _, f := range []string{"slow", "error"} {
 			jobs = append(jobs, vx.Job{Scenario: "panel.loop", Params: vx.P("fault", f, "at", "2"), Bound: 1, BudgetS: 100, Weight: 4})
